@@ -42,6 +42,14 @@ CLAIMED = {
              "compilers (and the cmodel prediction for generator A). Exploration level: differences, traps and out-of-bounds accesses found are violations.",
         note="IL semantics are il2c's reading of QBE's IL reference (QBE not installed); cases where gcc and clang disagree or report UB are discarded; "
              "constructs of three recorded findings are steered away from (avoid switches) and replayed separately."),
+    "C15": dict(
+        category="exploration", design_ref="DESIGN.md 3/C15",
+        engine="rapidcheck+hypothesis+enumeration",
+        technique="model-based testing: rapidcheck + exhaustive insertion orders against tree.c with a std::set/AVL-invariant oracle; Hypothesis switch programs executed through il2c against a dictionary model, IL ladder-depth bound, duplicate-label rejection",
+        text="(a) tree.c linked in-process: all insertion orders of <= 8 keys (exhaustive) and random 64-bit key sequences, every AVL invariant checked after each "
+             "insertion. (b) generated switch statements over all integer controlling types with up to 5000 cases are compiled, executed via il2c and probed at every key, "
+             "its neighbours and the type limits against a dictionary model; search depth is bounded from the IL; duplicate case constants/defaults must be rejected.",
+        note="(a) exhaustive only for <= 8 keys (10 in thorough); (b) IL executed through il2c, not QBE; gcc/clang arbitrate model mismatches."),
 }
 
 NOT_YET = "check not built yet in this round (planned per DESIGN.md section 10); no claim is made"
